@@ -557,6 +557,23 @@ def oracle_matrix(c, impl):
     return out
 
 
+def compare_matrix(c, impl, model):
+    """model = run_transport: [1] = E0002, [0, size, len..] = Ok"""
+    from props import c10
+    exp = expected_transport(c)
+    want = [1] if exp == 'err' else [0, exp[1]] + list(exp[2])
+    if list(model) != want:
+        return 'create_transport_costs: python copy %s, Model/Validation.v %s' % (want, model)
+    got = c10.outcome(impl['read'])
+    if model == [1]:
+        return None if got == ('err', (2,)) else 'read: impl %s, model Err(E0002)' % (got,)
+    n2 = count_locations(c['doc']) ** 2
+    if all(l >= n2 for l in model[2:]):
+        return None if got == ('ok',) else 'read: impl %s %s, model Ok' % (got, impl['read'].get('msg', impl['read'].get('causes', '')))
+    # a matrix truncated by a short errorCodes array: later lookups are not modelled (ok or the recorded panic)
+    return None if got in (('ok',), ('panic',)) else 'read: impl %s, model Ok (truncated matrix)' % (got,)
+
+
 def matrix_panic_class(c, exp):
     n2 = count_locations(c['doc']) ** 2
     if exp != 'err' and any(l < n2 for l in exp[2]):
